@@ -67,7 +67,9 @@ func excludedPkg(rel string) bool {
 
 func loadProg(repo string, tests bool) (*Prog, error) {
 	env := append(os.Environ(), "GOFLAGS=-mod=mod", "GOPROXY=off", "GOSUMDB=off", "GOWORK=off", "GOTOOLCHAIN=local")
-	cfgp := &packages.Config{Mode: packages.LoadSyntax | packages.NeedModule, Dir: repo, Env: env, Tests: tests}
+	// -trimpath keeps the build cache keys of the packages independent of the directory they are in, so the export data
+	// computed for /repo is reused for the unchanged packages of a scratch copy (thorough tier replays)
+	cfgp := &packages.Config{Mode: packages.LoadSyntax | packages.NeedModule, Dir: repo, Env: env, Tests: tests, BuildFlags: []string{"-trimpath"}}
 	pkgs, err := packages.Load(cfgp, "./...")
 	if err != nil {
 		return nil, err
